@@ -30,7 +30,7 @@ def optSp : G (Option Tok) := do if (← rnd 4) == 0 then pure (some (tk " " .Me
 
 mutual
 partial def genElem (d : Nat) : G Elem := do
-  let c ← rnd (if d == 0 then 2 else 12)
+  let c ← rnd (if d == 0 then 2 else 13)
   match c with
   | 0 | 1 | 2 => pure (.leaf (← pick leafToks))
   | 3 => pure (.group (tk "{" .GroupBegin) (← genSeq (d-1)) (tk "}" .GroupEnd))
@@ -47,6 +47,10 @@ partial def genElem (d : Nat) : G Elem := do
     pure (.cmd esc (tk n .CommandName) (← genArgs (d-1) .bracket 2) (← genArgs (d-1) .brace 3) (← genArgs (d-1) .bracket 1) (← genArgs (d-1) .brace 1))
   | 8 =>
     pure (.item esc (tk "item" .CommandName) (← genArgs (d-1) .bracket 2) (← genArgs (d-1) .brace 1) [] [] (← genSeq (d-1)))
+  | 12 =>
+    -- a long argument run (more than nine groups)
+    let n ← pick ["foo", "bar", "x"]
+    pure (.cmd esc (tk n .CommandName) (← genArgsN 0 .bracket (← rnd 5)) (← genArgsN 0 .brace (7 + (← rnd 6))) [] [])
   | 9 | 10 =>
     let n ← pick envNames
     let n2 ← if (← rnd 5) == 0 then pick envNames else pure (n.replace " " "")
@@ -61,6 +65,12 @@ partial def genElem (d : Nat) : G Elem := do
 partial def genSeq (d : Nat) : G (List Elem) := do
   let n ← rnd 4
   (List.range n).mapM fun _ => genElem d
+partial def genArgsN (d : Nat) (k : GKind) (n : Nat) : G (List Arg) := do
+  (List.range n).mapM fun _ => do
+    let (o, c) := match k with
+      | .bracket => (tk "[" .BracketBegin, tk "]" .BracketEnd)
+      | .brace => (tk "{" .GroupBegin, tk "}" .GroupEnd)
+    pure (Arg.mk (← optSp) o (← genSeq d) c)
 partial def genArgs (d : Nat) (k : GKind) (mx : Nat) : G (List Arg) := do
   let n ← rnd (mx + 1)
   let n := if (← rnd 2) == 0 then 0 else n
